@@ -149,6 +149,19 @@ function plan (seed, run, tier) {
       ops.push({ op: 'Rewrite', rw: rwi, f: fi, v: vi }, { op: 'Load', f: fi }, { op: 'Pin', f: fi, site: (run + fi) % 6 })
     })
   }
+  // two more appended scenarios (no draw), in another third of the runs: Alias - the original text of a rewritten
+  // file is loaded under the same name followed by a query or fragment (a file the package knows nothing about);
+  // Keep - wrapped call sites are kept by the handler and read only after the file was rewritten again
+  if (run % 3 === 2) {
+    files.forEach((fo, fi) => {
+      if (fo.rawOnly) return
+      const vi = fo.versions.findIndex(v => v.kind === 'mod')
+      if (vi < 0) return
+      const v2 = fo.versions.findIndex((v, i) => v.kind === 'mod' && i !== vi)
+      ops.push({ op: 'Rewrite', rw: 0, f: fi, v: vi }, { op: 'Load', f: fi }, { op: 'Alias', f: fi, site: (run + fi) % 6, sfx: ['?orig', '#1.bak', '?v=2#x'][(run + fi) % 3] })
+      if (v2 >= 0) ops.push({ op: 'Keep', f: fi, v2, site: (run + fi + 1) % 6 })
+    })
+  }
   // the rewriter's logger may be on for the whole run (process-wide level on the Rust side)
   const logLevel = rng.pick(['off', 'off', 'off', 'debug', 'trace'])
   // two instances of the package in one process (a module reload, a duplicate copy): the second wraps the
@@ -602,6 +615,83 @@ async function execute (plan, table) {
         rep.cells.push(`Pin:${site.kind}:${st2}`)
         log.push(`#${seq} Pin f=${op.f} v=${ld.v} site=${site.k}(${site.kind}) at ${top.line}:${top.col} -> ${st2}`)
         st('op:Pin')
+      } else if (op.op === 'Alias') {
+        const f = plan.files[op.f]; const ld = f && loaded[f.path]; const lx = f && L[f.path]
+        const ver = ld && f.versions[ld.v]
+        const okSites = ver ? ver.sites.filter(x => ['body', 'operand', 'arrow', 'far-column', 'multiline'].includes(x.kind)) : []
+        if (!ld || !lx || ld.id !== lx.id || lx.status !== 'modified' || !okSites.length) { log.push(`#${seq} Alias f=${op.f} skipped`); seq++; continue }
+        const alias = f.path + op.sfx
+        const site = okSites[op.site % okSites.length]
+        const mod = { exports: {} }
+        let afn = null
+        try {
+          const cf = vm.compileFunction(ver.text, ['exports', 'require', 'module', '__filename', '__dirname'], { filename: alias })
+          cf.call(mod.exports, mod.exports, () => ({}), mod, alias, path.dirname(f.path))
+          afn = mod.exports[site.entry || site.fn]
+        } catch (e) {}
+        if (typeof afn !== 'function') { seq++; continue }
+        const throwOnce = () => { let e; try { e = afn('arg', null) } catch (x) { e = x } return Array.isArray(e) ? e[0] : e }
+        st('probe:unknown-file-named-like-a-rewritten-one')
+        Error.prepareStackTrace = undefined; fragileInstalled = false
+        lastRaw = null; handlerThrew = null
+        let e1 = throwOnce(); let s1; try { s1 = e1 && e1.stack } catch (e) {}
+        if (handlerThrew) viol('N1', 'N1:prepareStackTrace-threw', `[op #${seq} Alias] the package's prepareStackTrace threw: ${handlerThrew && handlerThrew.message}`)
+        if (typeof s1 === 'string' && lastRaw) {
+          for (const r of lastRaw) if (r.file === alias && !r.isEval && !s1.includes(`${alias}:${r.line}:${r.col}`)) { viol('P5', 'P5:string-path-unknown-file-altered', `[op #${seq}] ${alias} was never rewritten (only ${f.path} was); its frame ${r.line}:${r.col} is not reported unchanged: ${JSON.stringify(s1.split('\n').filter(l => l.includes(f.path)).slice(0, 3))}`); break }
+        }
+        Error.prepareStackTrace = mkUser('alias' + seq)
+        lastRaw = null; handlerThrew = null
+        e1 = throwOnce(); let s2; try { s2 = e1 && e1.stack } catch (e) {}
+        if (Array.isArray(s2) && lastRaw) {
+          lastRaw.forEach((r, i) => { if (r.file === alias && !r.isEval && s2[i] && (s2[i].getFileName !== alias || s2[i].getLineNumber !== r.line)) viol('P5', 'P5:structured-path-unknown-file-altered', `[op #${seq}] ${alias} was never rewritten (only ${f.path} was); its frame ${r.line}:${r.col} is reported as ${s2[i].getFileName}:${s2[i].getLineNumber}`) })
+        }
+        Error.prepareStackTrace = undefined
+        hist.push(['Alias', op.f, op.sfx[0]])
+        rep.cells.push(`Alias:${site.kind}:${op.sfx[0]}`)
+        log.push(`#${seq} Alias f=${op.f} v=${ld.v} ${op.sfx}`)
+        st('op:Alias')
+      } else if (op.op === 'Keep') {
+        const f = plan.files[op.f]; const ld = f && loaded[f.path]; const lx = f && L[f.path]
+        const ver = ld && f.versions[ld.v]
+        const ver2 = f && f.versions[op.v2]
+        const rwP = lx && rewriters[lx.rw]
+        const okSites = ver ? ver.sites.filter(x => ['body', 'operand', 'arrow', 'far-column', 'multiline', 'method'].includes(x.kind)) : []
+        if (pkgB || !ld || !lx || ld.id !== lx.id || lx.status !== 'modified' || lx.inst !== 'A' || !rwP || !ver2 || ld.v === op.v2 || !okSites.length) { log.push(`#${seq} Keep f=${op.f} skipped`); seq++; continue }
+        const site = okSites[op.site % okSites.length]
+        const fn = ld.exports[site.entry || site.fn]
+        if (typeof fn !== 'function') { seq++; continue }
+        const throwOnce = () => { let e; try { e = fn('arg', null) } catch (x) { e = x } return Array.isArray(e) ? e[0] : e }
+        // reference: the getters read at once
+        Error.prepareStackTrace = mkUser('keepref' + seq); fragileInstalled = false
+        lastRaw = null
+        let e0 = throwOnce(); let ref; try { ref = e0 && e0.stack } catch (e) {}
+        const raw0 = lastRaw
+        // the same throw, the handler keeps the call sites it is given
+        Error.prepareStackTrace = function keeper (err, cs) { return cs }
+        lastRaw = null
+        e0 = throwOnce(); let kept; try { kept = e0 && e0.stack } catch (e) {}
+        const raw1 = lastRaw
+        const same = Array.isArray(ref) && Array.isArray(kept) && raw0 && raw1 && raw0.length === raw1.length && raw0.every((r, i) => r.file === raw1[i].file && (r.file !== f.path || (r.line === raw1[i].line && r.col === raw1[i].col)))
+        let st2 = 'skipped'
+        if (same) {
+          try { const r2 = rwP.rewrite(ver2.text, f.path); st2 = (r2 && r2.metrics && r2.metrics.status) || 'unknown' } catch (e) { st2 = 'failed' }
+          if (st2 === 'modified') {
+            st('probe:kept-call-sites-read-after-the-file-was-rewritten-again')
+            raw1.forEach((r, i) => {
+              if (r.file !== f.path || !kept[i] || !ref[i] || typeof kept[i].getFileName !== 'function') return
+              let now
+              try { now = { file: kept[i].getFileName(), line: kept[i].getLineNumber(), col: kept[i].getColumnNumber() } } catch (e) { viol('N1', 'N1:callsite-getter-threw', `[op #${seq} Keep] a wrapped call site getter threw: ${e && e.message}`); return }
+              if (now.file !== ref[i].getFileName || now.line !== ref[i].getLineNumber || now.col !== ref[i].getColumnNumber) viol('P1', 'P1:kept-call-site-changes-after-rewrite', `[op #${seq}] a call site of ${f.path} (raw ${r.line}:${r.col}) prepared while version ${ld.v} was the latest rewrite read ${ref[i].getFileName}:${ref[i].getLineNumber}:${ref[i].getColumnNumber} at once, but reads ${now.file}:${now.line}:${now.col} after the file was rewritten again (version ${op.v2})`)
+            })
+          }
+          // back to the running version: the caches are as they were
+          try { rwP.rewrite(ver.text, f.path) } catch (e) {}
+        }
+        Error.prepareStackTrace = undefined
+        hist.push(['Keep', op.f, st2])
+        rep.cells.push(`Keep:${site.kind}:${st2}`)
+        log.push(`#${seq} Keep f=${op.f} v=${ld.v} v2=${op.v2} -> ${st2}`)
+        st('op:Keep')
       } else if (op.op === 'Lookup') {
         const l = plan.lookups[op.lf]; const s = lookupState[op.lf]
         if (!l) { seq++; continue }
@@ -712,7 +802,7 @@ module.exports = {
   execute,
   shrink,
   summarise,
-  rule: 'a case is one seeded history (8-40 operations: Rewrite through CacheRewriter by one of <=2 rewriter instances / NonCacheRewrite / Load / Throw at a generator-known site via {string path, user handler, late handler, re-wrapped handler} / SetHandler / Lookup / FsMutate / FsFault / Burst>1000 / Pin (the external original map is replaced by one that sends a site to exactly its generated line and column in another file, learned from a first throw; the file is rewritten again, both flavours must report the other file; the map is put back)) over <=4 files x <=4 versions (modified, not-modified, syntax error; inline or external original map when chaining) and <=2 disk-only files; distinct = hash of the abstract history (operation kind, file index, relation {first, same, newer} x status, handler kind); non-trivial = at least two operations',
+  rule: 'a case is one seeded history (8-40 operations: Rewrite through CacheRewriter by one of <=2 rewriter instances / NonCacheRewrite / Load / Throw at a generator-known site via {string path, user handler, late handler, re-wrapped handler} / SetHandler / Lookup / FsMutate / FsFault / Burst>1000 / Pin (the external original map is replaced by one that sends a site to exactly its generated line and column in another file, learned from a first throw; the file is rewritten again, both flavours must report the other file; the map is put back) / Alias (the original text of a rewritten file loaded under the same name followed by a query or fragment: an unknown file, positions unchanged) / Keep (wrapped call sites kept by the handler and read after the file was rewritten again must read what they read at once)) over <=4 files x <=4 versions (modified, not-modified, syntax error; inline or external original map when chaining) and <=2 disk-only files; distinct = hash of the abstract history (operation kind, file index, relation {first, same, newer} x status, handler kind); non-trivial = at least two operations',
   components: {
     real: ['main.js (CacheRewriter, NonCacheRewriter)', 'js/source-map/index.js + node_source_map.js', 'js/stack-trace/index.js', 'lru-cache 7.18.3 (vendored copy of the real library)', 'V8 call sites / prepareStackTrace protocol / vm.compileFunction', 'Rust rewriter (rewrite_js, print_js, chaining) via simrw batch'],
     simulated: ['fs under js/source-map (existsSync/readFileSync with faults)'],
@@ -724,5 +814,5 @@ module.exports = {
     'frames of code that is older than the latest rewrite of its file carry no positional expectation (the package keys by file name)',
     'batching the rewriter is sound here because call-to-call state of the rewriter is C16\'s subject'
   ],
-  expectedProbes: ['probe:frame-in-unmapped-region-of-chained-map', 'probe:frame-in-rewritten-file', 'probe:frame-through-chained-map', 'probe:file-rewritten-again', 'probe:throw-from-stale-code', 'probe:notmodified-after-modified', 'probe:rewrite-by-second-rewriter-instance', 'probe:eval-frame', 'probe:frame-in-never-rewritten-file', 'probe:lru-eviction-burst', 'probe:cross-file-stack', 'probe:string-path', 'probe:structured-path', 'probe:lookup-translated', 'probe:two-stacks-from-one-expression', 'probe:frame-in-second-source-of-bundle-map', 'probe:eval-made-function-called-from-outside', 'probe:more-than-1000-files-rewritten', 'probe:message-contains-own-frame-location', 'probe:generated-position-equals-original-position']
+  expectedProbes: ['probe:frame-in-unmapped-region-of-chained-map', 'probe:frame-in-rewritten-file', 'probe:frame-through-chained-map', 'probe:file-rewritten-again', 'probe:throw-from-stale-code', 'probe:notmodified-after-modified', 'probe:rewrite-by-second-rewriter-instance', 'probe:eval-frame', 'probe:frame-in-never-rewritten-file', 'probe:lru-eviction-burst', 'probe:cross-file-stack', 'probe:string-path', 'probe:structured-path', 'probe:lookup-translated', 'probe:two-stacks-from-one-expression', 'probe:frame-in-second-source-of-bundle-map', 'probe:eval-made-function-called-from-outside', 'probe:more-than-1000-files-rewritten', 'probe:message-contains-own-frame-location', 'probe:generated-position-equals-original-position', 'probe:unknown-file-named-like-a-rewritten-one', 'probe:kept-call-sites-read-after-the-file-was-rewritten-again']
 }
